@@ -406,11 +406,48 @@ def r_zero_tc(prog, R):
             r.ok("tc-not-delivered:%s" % c["callee"], f.loc(c["ln"]))
 
 
+def r_count(prog, R):
+    r = R.rule("R-C20-COUNT", "every success return of the socket/connection read and write primitives has defined the byte count it reports", floor=4, analysis="A-VS must-set of the out parameter")
+    summ = Summaries(prog)
+    n = 0
+    for f in sorted(prog.funcs.values(), key=lambda x: x.key):
+        if f.file not in ("src/lib/ares_socket.c", "src/lib/ares_conn.c") or (f.retw or f.ret) != "ares_conn_err_t":
+            continue
+        outs = [p["n"] for p in f.params if p["ty"].replace(" ", "") in ("unsignedlong*", "size_t*") and p["n"] in ("read_bytes", "written", "bytes")]
+        if not outs:
+            continue
+        n += 1
+        outn = outs[0]
+
+        def on_el(extra, blk, i, el, get, outn=outn):
+            if el["k"] == "asg":
+                l = strip(el["e"]["l"])
+                if l is not None and l.get("k") == "un" and l["op"] == "*" and is_var(strip(l["e"]), outn):
+                    return ["W"]
+            if el["k"] == "call" and any(is_var(strip(a), outn) for a in el["e"].get("args", [])):
+                return ["W"]      # delegated: the callee is subject to this same rule
+            return [extra]
+        vs = ValueSets(prog, f, summaries=summ, on_el=on_el, init_extra="", cap=2048)
+        bad = None
+        for b, i, el in f.returns():
+            for st in vs.states_at(b, i):
+                rs = vs.eval(el.get("e"), st[0])
+                if (rs is None or "ARES_CONN_ERR_SUCCESS" in rs) and st[1] != "W":
+                    bad = el
+        k = "fn=%s defines *%s on success" % (f.name, outn)
+        if bad:
+            r.viol(k, f.name, f.loc(bad), "%s can return ARES_CONN_ERR_SUCCESS ('%s') without storing *%s: the caller appends an uninitialised number of bytes to the connection buffer (a zero-length datagram is enough)" % (f.name, bad.get("t", ""), outn))
+        else:
+            r.ok(k, f.loc(f.ln))
+    r.info["primitives"] = n
+
+
 def run(prog, R, tier):
     R.assume("ares_buf_tag/rollback/clear/consume implement their documented contracts")
     r_tag(prog, R)
     r_udpframe(prog, R)
     r_flush(prog, R)
     r_zero_tc(prog, R)
+    r_count(prog, R)
     # a partial TCP write must leave the socket registered for write events, otherwise the tail of the query is never sent
     C10.r_announce(prog, R, rid="R-C20-WRITEINTEREST")
